@@ -87,7 +87,7 @@ class IQueue(_queue.Queue):
             raise HarnessBlocked('get on empty %s queue' % self._role)
         item = _queue.Queue.get(self, block, timeout)
         if t is not None and self._role == 'task' and t.name != 'consumer':
-            t.got = 'none' if item is None else w.task_id(item)
+            t.got = 'none' if item is None else (w.task_id(item) if w.body is None else item[0])
         return item
 
     def empty(self):
@@ -115,8 +115,9 @@ class _QueueModule(object):
 class PoolWorld(object):
     """One call of the real ThreadPool: n items, failing set, mode, pool size, entry point."""
 
-    def __init__(self, n, fail, raise_mode, size, entry, api=None):
+    def __init__(self, n, fail, raise_mode, size, entry, api=None, body=None):
         import mapproxy.util.async_ as amod
+        self.body = body          # end-to-end mode: the caller runs body(world) instead of a direct pool call
         self.amod = amod
         self.n, self.fail, self.raise_mode, self.size, self.entry = n, frozenset(fail), bool(raise_mode), size, entry
         self.api = api or APIS[entry][0]
@@ -158,17 +159,29 @@ class PoolWorld(object):
         amod.Queue = _QueueModule
         amod.ThreadWorker = BatonWorker
         _WORLD[0] = self
+        self.pool = None
         try:
-            self.pool = amod.ThreadPool(size)
+            if body is None:
+                self.pool = amod.ThreadPool(size)
         except Exception:
             self.close()
             raise
-        self.sched.spawn('consumer', self._consumer)
+        self.sched.spawn('consumer', self._consumer if body is None else (lambda: body(self)))
 
     # ---- plumbing ------------------------------------------------------------------------
     def new_queue(self, q):
+        if self.body is not None and len(self.queues) >= 2:
+            self.queues = []          # end-to-end mode: a new pool per call of the code under test
         self.queues.append(q)
         return 'task' if len(self.queues) == 1 else ('result' if len(self.queues) == 2 else 'other')
+
+    @property
+    def tq(self):
+        return self.queues[0] if self.queues else None
+
+    @property
+    def rq(self):
+        return self.queues[1] if len(self.queues) > 1 else None
 
     def register(self, worker):
         name = 'w%d' % (len(self.workers) + 1)
@@ -273,8 +286,8 @@ class PoolWorld(object):
 
     # ---- observation ---------------------------------------------------------------------
     def snapshot(self):
-        tq = [(-1 if t is None else self.task_id(t)) for t in list(self.pool.task_queue.queue)]
-        rq = [self.result_id(r) for r in list(self.pool.result_queue.queue)]
+        tq = [(-1 if t is None else self.task_id(t)) for t in list(self.tq.queue)]
+        rq = [self.result_id(r) for r in list(self.rq.queue)]
         wn = {'start': 0, 'idle': 0, 'gotNone': 0, 'exited': 0}
         hold = ['-'] * self.n
         for name in self.workers:
@@ -304,8 +317,9 @@ class PoolWorld(object):
             msg = 'the call raised %r' % (c.exc,)
             if msg not in self.problems:
                 self.problems.append(msg)
-        return {'tq': tq, 'rq': rq, 'unf': self.pool.task_queue.unfinished_tasks, 'out': [list(x) for x in self.out],
-                'hasout': bool(done or self.api != 'map'), 'raised': self.raised, 'done': done, 'wn': wn, 'hold': hold}
+        return {'tq': tq, 'rq': rq, 'unf': self.tq.unfinished_tasks, 'out': [list(x) for x in self.out],
+                'hasout': bool(self.api != 'map' or (done and self.raised == -1)),
+                'raised': self.raised, 'done': done, 'wn': wn, 'hold': hold}
 
     # ---- controller ----------------------------------------------------------------------
     def names(self):
@@ -321,10 +335,10 @@ class PoolWorld(object):
         op, info = t.pending
         q = info.get('q')
         if op == 'get':
-            qq = self.pool.task_queue if q == 'task' else self.pool.result_queue
+            qq = self.tq if q == 'task' else self.rq
             return qq.qsize() > 0
         if op == 'join':
-            qq = self.pool.task_queue if q == 'task' else self.pool.result_queue
+            qq = self.tq if q == 'task' else self.rq
             return qq.unfinished_tasks == 0
         return True
 
@@ -339,7 +353,8 @@ class PoolWorld(object):
             item = t.got
         self.sched.step(name)
         ev = {'c': name, 'op': op, 'q': info.get('q', '-'), 'item': item}
-        ev.update(self.snapshot())
+        if self.body is None:
+            ev.update(self.snapshot())
         if name != 'consumer' and op == 'task_done' and not t.finished:
             t.got = None
         self.events.append(ev)
@@ -382,10 +397,10 @@ class PoolWorld(object):
         if c.exc is not None:
             return ('unexpected-exception', 'the call raised %r' % (c.exc,))
         for p, (k, i) in enumerate(self.out):
+            if self.raise_mode and k == 'exc' and i == p and i in self.fail:
+                return ('exception-as-value', 'raise mode: position %d of the results is the exc_info of item %d '
+                                              'instead of the exception being raised; out=%r' % (p, i, self.out))
             if i != p or k != exp_kind(p):
-                if self.raise_mode and k == 'exc' and i == p:
-                    return ('exception-as-value', 'raise mode: position %d of the results is the exc_info of item %d '
-                                                  'instead of the exception being raised; out=%r' % (p, i, self.out))
                 return ('wrong-order-or-value', 'position %d of the results is %r (expected %r); out=%r' % (
                     p, [k, i], [exp_kind(p), p], self.out))
         if self.raise_mode and self.fail:
@@ -538,9 +553,9 @@ def replay_behaviour(beh, rng, api=None, keep_open=False):
 POLICIES = ('uniform', 'consumer-eager', 'workers-eager', 'reverse', 'one-slow', 'burst')
 
 
-def random_run(call, rng, policy, api=None, prefix=None, max_steps=3000):
+def random_run(call, rng, policy, api=None, prefix=None, max_steps=3000, body=None):
     """One call of the real ThreadPool under a random schedule. Returns the world (closed)."""
-    w = PoolWorld(call['n'], call['fail'], call['raise_mode'], call['size'], call['entry'], api=api)
+    w = PoolWorld(call['n'], call['fail'], call['raise_mode'], call['size'], call['entry'], api=api, body=body)
     try:
         slow = None
         burst = None
@@ -591,6 +606,83 @@ def random_run(call, rng, policy, api=None, prefix=None, max_steps=3000):
         return w
     finally:
         w.close()
+
+
+# --------------------------------------------------------------------------------------------
+# sanity layer: the order-sensitive users of the pool under adversarial completion orders
+# --------------------------------------------------------------------------------------------
+class _FakeImg(object):
+    def __init__(self, i):
+        self.i = i
+        self.opacity = None
+
+
+class _FakeLayer(object):
+    """stands for a source (TileCreator) / a WMS layer (LayerRenderer)"""
+    coverage = None
+    opacity = None
+
+    def __init__(self, i):
+        self.i = i
+
+    def get_map(self, query):
+        return _FakeImg(self.i)
+
+    def combined_layer(self, other, query):
+        return None
+
+
+class _Obj(object):
+    def __init__(self, **kw):
+        self.__dict__.update(kw)
+
+
+def end_to_end_order(ctx, rng, thorough):
+    import mapproxy.cache.tile as tmod
+    import mapproxy.service.wms as wmod
+    query = _Obj(size=(4, 4), bbox=(0, 0, 1, 1), srs=None)
+    runs = 0
+    for k in ((2, 3, 5, 7) if thorough else (2, 3, 5)):
+        for policy in ('reverse', 'uniform', 'one-slow', 'workers-eager', 'consumer-eager'):
+            # TileCreator._query_sources: sources are merged bottom-up in configuration order
+            got = []
+            saved = tmod.merge_images
+            tmod.merge_images = lambda layers, **kw: got.append([l[0].i for l in layers]) or 'merged'
+            try:
+                tc = tmod.TileCreator.__new__(tmod.TileCreator)
+                tc.sources = [_FakeLayer(i) for i in range(k)]
+                tc.image_merger = None
+                tc.tile_mgr = _Obj(image_opts=None)
+                w = random_run(dict(n=k, fail=[], raise_mode=True, size=k, entry='imap'), rng, policy,
+                               body=lambda world: tc._query_sources(query))
+            finally:
+                tmod.merge_images = saved
+            runs += 1
+            ctx.count(('e2e', 'tile', k, tuple(w.schedule)))
+            if w.problems or w.stuck or got != [list(range(k))]:
+                ctx.violation({'kind': 'end-to-end-layer-order', 'user': 'TileCreator._query_sources'},
+                              'sources %s were handed to merge_images as %r under schedule policy %s (%s)' % (
+                                  list(range(k)), got, policy, '; '.join(w.problems) or ('stuck' if w.stuck else 'completed')),
+                              {'k': k, 'policy': policy, 'schedule': list(w.schedule)})
+            # LayerRenderer.render: layers are added to the merger in request order
+            for cr in (2, k):
+                for rs in (True, False):
+                    order = []
+                    merger = _Obj(add=lambda img, coverage=None: order.append(img.i), cacheable=True)
+                    lr = wmod.LayerRenderer([_FakeLayer(i) for i in range(k)], query, None, raise_source_errors=rs,
+                                            concurrent_rendering=cr)
+                    w = random_run(dict(n=k, fail=[], raise_mode=False, size=cr, entry='imap'), rng, policy,
+                                   body=lambda world: lr.render(merger))
+                    runs += 1
+                    ctx.count(('e2e', 'wms', k, cr, rs, tuple(w.schedule)))
+                    if w.problems or w.stuck or order != list(range(k)):
+                        ctx.violation({'kind': 'end-to-end-layer-order', 'user': 'LayerRenderer.render'},
+                                      'layers %s reached the merger as %r (concurrent_rendering=%d, policy %s; %s)' % (
+                                          list(range(k)), order, cr, policy,
+                                          '; '.join(w.problems) or ('stuck' if w.stuck else 'completed')),
+                                      {'k': k, 'policy': policy, 'schedule': list(w.schedule)})
+    return runs
+
 
 
 def mc_consts(variants, minn, maxn, sizes, entries=ENTRIES, modes=(True, False)):
@@ -755,7 +847,6 @@ def probe_variants(ctx):
 def run(ctx):
     thorough = ctx.tier == 'thorough'
     tlc.sany(SPEC)
-    tlc.sany(TRACE_SPEC)
     rng = ctx.rng
 
     # (A) which variant does the code follow?  (the as-written variants violate the property in the model)
@@ -805,39 +896,42 @@ def run(ctx):
 
     # (R) spec -> code, 1: simulated behaviours of the model forced on the real pool
     seen_actions = set()
-    nsim = 1500 if thorough else 260
-    d = ctx.sub('sim')
-    mp, cp = tlc.write_mc(d, 'Pool', 'MC_PoolSim', consts=mc_consts(variants, 0, 5 if thorough else 4,
-                                                                    [1, 2, 3, 4] if thorough else [1, 2, 3]))
-    prefix = os.path.join(d, 'beh')
-    r = tlc.run(mp, cp, d, workers=1, simulate='file=%s,num=%d' % (prefix, nsim), depth=150, seed=ctx.seed + 15,
-                coverage=False, timeout=900)
+    top = 5 if thorough else 4
+    sims = [('pool', 2, top, [2, 3, 4] if thorough else [2, 3], 900 if thorough else 150),
+            ('seq', 0, 3, [1], 150 if thorough else 40),
+            ('mixed', 0, top, [1, 2, 3], 450 if thorough else 70)]
     nb = 0
     bad = False
-    for f, beh in tlc.sim_traces(prefix):
-        if len(beh) < 2:
-            continue
-        nb += 1
-        c = call_of(beh[0][1])
-        api = rng.choice(APIS[c['entry']])
-        status, detail, w = replay_behaviour(beh, rng, api=api)
-        ctx.cov['replayed_behaviours'] += 1
-        ctx.cov['replayed_steps'] += len(beh) - 1
-        acts = tuple(a for a, _ in beh[1:])
-        seen_actions.update(parse_action(a)[0] for a in acts)
-        ctx.count(('replay', json.dumps(c, sort_keys=True), acts))
-        if nb == 1:
-            ctx.sample({'kind': 'spec behaviour replayed on the real ThreadPool', 'call': w.header(),
-                        'actions': list(acts)[:60], 'result': status})
-        if status != 'ok':
-            report_world_violation(ctx, w, variants, 'replay-' + status,
-                                   'spec behaviour not reproduced by the real code: %s' % detail,
-                                   {'behaviour': [a for a, _ in beh], 'detail': detail})
-            bad = True
-            break
+    for sname, lo, hi, sizes, nsim in sims:
+        d = ctx.sub('sim-' + sname)
+        mp, cp = tlc.write_mc(d, 'Pool', 'MC_PoolSim', consts=mc_consts(variants, lo, hi, sizes))
+        prefix = os.path.join(d, 'beh')
+        r = tlc.run(mp, cp, d, workers=1, simulate='file=%s,num=%d' % (prefix, nsim), depth=200, seed=ctx.seed + 15,
+                    coverage=False, timeout=900)
+        nb0 = nb
+        for f, beh in tlc.sim_traces(prefix):
+            if len(beh) < 2 or bad:
+                continue
+            nb += 1
+            c = call_of(beh[0][1])
+            api = rng.choice(APIS[c['entry']])
+            status, detail, w = replay_behaviour(beh, rng, api=api)
+            ctx.cov['replayed_behaviours'] += 1
+            ctx.cov['replayed_steps'] += len(beh) - 1
+            acts = tuple(a for a, _ in beh[1:])
+            seen_actions.update(parse_action(a)[0] for a in acts)
+            ctx.count(('replay', json.dumps(c, sort_keys=True), acts))
+            if nb == 1:
+                ctx.sample({'kind': 'spec behaviour replayed on the real ThreadPool', 'call': w.header(),
+                            'actions': list(acts)[:60], 'result': status})
+            if status != 'ok':
+                report_world_violation(ctx, w, variants, 'replay-' + status,
+                                       'spec behaviour not reproduced by the real code: %s' % detail,
+                                       {'behaviour': [a for a, _ in beh], 'detail': detail})
+                bad = True
+        if nb == nb0 and not bad:
+            raise tlc.MachineryError('no simulation behaviours produced (%s): %s' % (sname, r.out[-800:]))
     ctx.log('replayed %d simulated behaviours (%d steps)' % (nb, ctx.cov['replayed_steps']))
-    if nb == 0:
-        raise tlc.MachineryError('no simulation behaviours produced: %s' % r.out[-800:])
 
     # (R) spec -> code, 2: adversarial situations (shortest counterexamples of "this never happens"), then a random
     # continuation; the whole recorded call goes into the trace batch as well
@@ -929,6 +1023,10 @@ def run(ctx):
         ctx.log('validated %d recorded calls (%d events, %d rejected)' % (
             len(records), sum(len(x['ev']) for x in records), len(rejected)))
 
+    # (E) sanity layer: the order-sensitive users of the pool, end to end, under adversarial completion orders
+    ne = end_to_end_order(ctx, rng, thorough)
+    ctx.log('end-to-end: %d calls of TileCreator._query_sources / LayerRenderer.render under adversarial schedules' % ne)
+
     ctx.assumptions += [
         'the threads share state only through the two Queue objects (and thread start); every Queue operation is atomic '
         '(queue.Queue holds its mutex) - so one model action per Queue call is the complete interleaving granularity',
@@ -976,7 +1074,6 @@ def replay(ctx, data):
         print('property violated on the real code: %s' % j[1])
         rc = 1
     variants = case.get('variants') or {'SeqRaises': True, 'StarByCount': True}
-    tlc.sany(TRACE_SPEC)
     r, rejected = validate_traces(ctx, 'replay', {'SeqRaises': True, 'StarByCount': True}, [(w2 or w).record()])
     print('trace validation against the specification (repaired variants): %s' % (
         'rejected %r' % (rejected,) if rejected else 'accepted'))
